@@ -6,6 +6,8 @@ import json
 import os
 import sys
 
+import vf.instruments.clock  # noqa: F401  (scripted clock in place before anything imports the code under test)
+
 
 def main(argv=None) -> int:
     ap = argparse.ArgumentParser()
